@@ -762,6 +762,7 @@ func (e *Exec) oneReadOnly(r *replica, ro *ReadOnly, h int64) {
 			p = e.call(r, func() { resp = r.app.CheckTx(abci.RequestCheckTx{Tx: f.Bytes}) })
 			e.logf("h%d r%d checktx code=%d", h, r.idx, resp.Code)
 			if p == nil && e.m.Desync == "" {
+				e.syncKeyOnRecord(spec.Acct)
 				pred := e.m.PredictTx(&f)
 				if pred.MustReject && resp.Code == 0 {
 					e.addViol(viol("C03", "accepted-forbidden-tx", e.step, map[string]string{"reason": pred.RejectReason, "call": "CheckTx", "kind": spec.Kind, "key": e.kr.Get(spec.SignBy).Type},
@@ -850,6 +851,7 @@ func (e *Exec) deliver(bi, ti int, rec *blockRecord, h int64) {
 	var pred TxPrediction
 	modelLive := e.m.Desync == ""
 	if modelLive {
+		e.syncKeyOnRecord(spec.Acct)
 		pred = e.m.PredictTx(&f)
 	} else {
 		pred.NoClaim = true
@@ -999,6 +1001,15 @@ func balOf(st *AppState, addrHex string) *big.Int {
 		return b
 	}
 	return new(big.Int)
+}
+
+// syncKeyOnRecord: whether a key is stored with the account is read off the application's own account record
+// (the statement says under which key a signature must verify, not when an implementation records keys).
+func (e *Exec) syncKeyOnRecord(acct int) {
+	if e.last == nil || e.last.HasKey == nil {
+		return
+	}
+	e.m.KeyOnRecord[acct] = e.last.HasKey[hx(e.kr.Get(acct).Addr)]
 }
 
 func dustOf(st *AppState, addrHex string) *big.Int {
